@@ -481,6 +481,14 @@ def main():
         "differential_only": ["tz.tzlocal() beyond name matching (its tzname() enters the model and the spec as "
                               "oracle bits computed from the real zone object)",
                               "UnknownTimezoneWarning emission compared as a flag"],
+        "guard_matcher_correspondence": {
+            "F-C15-ampm": {
+                "theorem": "C15_fuzzy_conservative_guarded, C15_guard_computable, C15_fuzzy_conservative_refuted, C15_d15_outside_guard",
+                "guard": "strict_no_clash: the strict run never reaches an AM/PM word while an AM/PM flag is already set "
+                         "(computable twin strict_clash = false, C15_guard_computable)",
+                "matcher": "m_second_ampm: strict parse succeeded and the fuzzy result differs AND the text has >= 2 AM/PM words "
+                           "AND strict_clash (oracle entry 22) is TRUE on the extracted model for the same input and options",
+                "relation": "matcher = complement of the theorem's guard, evaluated on the extracted model for the very input"}},
         "known_findings_hit": verdict.known_hits,
         "known_finding_examples": {k: v for k, v in verdict.known_examples.items()},
     }
